@@ -30,6 +30,7 @@ U1 = {
     "C14": (["handshake"], ["PROPERTY Act_C14", "PROPERTY Act_C14_pkt"]),
     "C15": (["keepalive"], ["INVARIANT Inv_C15", "INVARIANT Inv_C13"]),
     "C16": (["handshake"], ["PROPERTY Act_C14_pkt", "PROPERTY Act_C20"]),
+    "C02": ([], []),        # (C02's U1 is the codec model; its session part only uses the drivers and the automaton)
     "C17": (["publisher", "subscriber", "twoaddr"], ["INVARIANT Inv_C17"]),
     "C18": (["handshake", "publisher"], ["PROPERTY Act_C18"]),
     "C19": (["twoaddr"], ["PROPERTY Act_C19", "INVARIANT Inv_C17"]),
@@ -83,12 +84,13 @@ def mc_u1(pid, tier):
 
 # property -> list of (family, share of the walk budget)
 FAMILIES = {
-    "C04": [("mixed", 0.5), ("session", 0.3), ("enum:handshake", 0), ("enum:refused", 0), ("enum:deadconnect", 0), ("react", 0.3), ("enum:react", 0)], "C05": [("mixed", 0.6), ("retry", 0.4), ("react", 0.3), ("enum:react", 0)], "C06": [("inbound", 0.6), ("mixed", 0.3), ("session", 0.2), ("enum:inbound2", 0)],
-    "C07": [("subs", 0.6), ("mixed", 0.4), ("react", 0.3), ("enum:react", 0)], "C08": [("retry", 0.5), ("mixed", 0.3), ("jitter", 0.3), ("enum:retrygrid", 0)], "C09": [("qos2", 0.5), ("wrapq2", 0.4), ("mixed", 0.2), ("session", 0.2)],
-    "C10": [("mixed", 0.5), ("persist", 0.4), ("session", 0.3), ("react", 0.3), ("enum:react", 0)], "C11": [("session", 0.7), ("mixed", 0.3), ("enum:refused", 0), ("react", 0.3), ("enum:react", 0)], "C12": [("persist", 0.4), ("wrapsess", 0.3), ("session", 0.3), ("mixed", 0.2), ("enum:refused", 0), ("enum:resume", 0)],
-    "C13": [("mixed", 0.3), ("session", 0.3), ("retry", 0.2), ("keepalive", 0.2), ("jitter", 0.2), ("enum:refused", 0), ("enum:resume", 0), ("react", 0.3), ("enum:react", 0)], "C14": [("mixed", 0.7), ("session", 0.3), ("enum:handshake", 0), ("enum:refstate", 0), ("react", 0.3), ("enum:react", 0)],
-    "C15": [("keepalive", 0.7), ("mixed", 0.3)], "C16": [("enum:inject", 0), ("enum:handshake", 0), ("mixed", 0.4), ("session", 0.3), ("react", 0.3), ("enum:react", 0)], "C17": [("wrap", 0.5), ("wrapsess", 0.4), ("mixed", 0.2), ("enum:ids", 0), ("react", 0.3), ("enum:react", 0)],
-    "C18": [("mixed", 0.4), ("session", 0.4), ("persist", 0.4), ("enum:handshake", 0), ("enum:ids", 0), ("react", 0.3), ("enum:react", 0)], "C20": [("enum:args", 0), ("mixed", 0.6)],
+    "C02": [("mixed", 0.5), ("retry", 0.3), ("persist", 0.3), ("enum:resume", 0), ("enum:handshake", 0)],
+    "C04": [("mixed", 0.5), ("session", 0.3), ("enum:handshake", 0), ("enum:refused", 0), ("enum:deadconnect", 0), ("enum:lossall", 0), ("react", 0.3), ("enum:react", 0)], "C05": [("mixed", 0.6), ("retry", 0.4), ("react", 0.3), ("enum:react", 0)], "C06": [("inbound", 0.6), ("mixed", 0.3), ("session", 0.2), ("enum:inbound2", 0)],
+    "C07": [("subs", 0.6), ("mixed", 0.4), ("react", 0.3), ("enum:react", 0)], "C08": [("retry", 0.5), ("mixed", 0.3), ("jitter", 0.3), ("enum:retrygrid", 0), ("enum:resume", 0)], "C09": [("qos2", 0.5), ("wrapq2", 0.4), ("mixed", 0.2), ("session", 0.2)],
+    "C10": [("mixed", 0.5), ("persist", 0.4), ("session", 0.3), ("react", 0.3), ("enum:react", 0)], "C11": [("session", 0.7), ("mixed", 0.3), ("enum:refused", 0), ("enum:lossall", 0), ("react", 0.3), ("enum:react", 0)], "C12": [("persist", 0.4), ("wrapsess", 0.3), ("session", 0.3), ("mixed", 0.2), ("enum:refused", 0), ("enum:resume", 0), ("enum:lossall", 0)],
+    "C13": [("mixed", 0.3), ("session", 0.3), ("retry", 0.2), ("keepalive", 0.2), ("jitter", 0.2), ("enum:refused", 0), ("enum:resume", 0), ("enum:lossall", 0), ("react", 0.3), ("enum:react", 0)], "C14": [("mixed", 0.7), ("session", 0.3), ("enum:handshake", 0), ("enum:refstate", 0), ("enum:pktstate", 0), ("react", 0.3), ("enum:react", 0)],
+    "C15": [("keepalive", 0.7), ("mixed", 0.3), ("enum:ka2", 0)], "C16": [("enum:inject", 0), ("enum:handshake", 0), ("enum:pktstate", 0), ("mixed", 0.4), ("session", 0.3), ("react", 0.3), ("enum:react", 0)], "C17": [("wrap", 0.5), ("wrapsess", 0.4), ("mixed", 0.2), ("enum:ids", 0), ("react", 0.3), ("enum:react", 0)],
+    "C18": [("mixed", 0.4), ("session", 0.4), ("persist", 0.4), ("enum:handshake", 0), ("enum:ids", 0), ("enum:resume", 0), ("react", 0.3), ("enum:react", 0)], "C20": [("enum:args", 0), ("mixed", 0.6)],
 }
 
 
@@ -434,3 +436,31 @@ def main(pid, tier, seed, replay=None):
     print("%s %s: U1 %d states; %d executions judged, %d accepted, %d with clause hits; conformance %d/%d; %s" % (
         pid, tier, states, len(idx), len(acc), len(nontriv), conf_ok, conf_ok + len(div), "VIOLATED" if nv else "held"))
     return 1 if nv else 0
+
+
+def session_bytes(pid, tier, seed):
+    """C02 in live sessions: everything written to the transport by recorded executions is judged by the strict reference
+    decoder (TraceMon, Prop = C02).  Returns (executions, accepted, with hits, violations [(tid, line, clause, info)], replay path or None)"""
+    w = workdir("walk-" + pid)
+    dirs = gen_families(pid, w, WALKS[tier] // 2, seed, tier)
+    trace, index, idx, src = combine(w, dirs)
+    acc, rej, rmon = run_mon(pid, trace, index, "mon-" + pid)
+    if len(acc) + len(rej) != len(idx):
+        raise Machinery("TraceMon judged %d+%d of %d traces" % (len(acc), len(rej), len(idx)))
+    viol = [v for _, v in sorted(rej.items())]
+    # the DUP bit is one of the "mandatory flag bits in the first byte": the retransmission automaton (Prop = C08) is run over the
+    # same executions and its two DUP clauses count for C02 as well (its other clauses are C08's own subject)
+    acc8, rej8, _ = run_mon("C08", trace, index, "mon-" + pid + "-dup")
+    viol += [list(v[:3]) + ["C02.dup_bit_not_as_prescribed (" + v[3] + ")", v[4]] for _, v in sorted(rej8.items())
+             if v[3] in ("C08.dup_wrong", "C08.dup_on_first_transmission")]
+    path = None
+    if viol:
+        v = viol[0]
+        lines = load_trace(trace, idx, v[1])
+        cut = [l for l in lines if v[2] == 0 or l["n"] <= v[2]]
+        path = save_replay(pid, "seed%d-%s-session-trace%d" % (seed, tier, v[1]),
+                           {"kind": "trace", "property": pid, "clause": v[3], "info": v[4], "line": v[2],
+                            "regenerate": "./check %s --tier %s --seed %d" % (pid, tier, seed), "lines": cut, "readable": render(cut, 200)})
+    hits = sum(1 for v in acc.values() if v[3] > 0)
+    shutil.rmtree(w, ignore_errors=True)
+    return len(idx), len(acc), hits, viol, path
